@@ -382,6 +382,68 @@ ec:
 			}
 		}
 	}
+	// genuine signatures over a "challenge" that is NOT 8 bytes long: not a signature over the challenge that is sent
+	{
+		sec3c := "signatures over challenges of other lengths"
+		c.SecBound(sec3c, "RSA-1024/BC, RSA-2048/34CC, ECDSA P-256 plain, ECDSA brainpoolP384r1 DER x challenge lengths {0,1,7,9,16,32}: a response that IS a valid signature over that string must be rejected by ValidateActiveAuthSignature and by VerifyEvidence")
+		type kcase struct {
+			name string
+			rsa  *rsa.PrivateKey
+			tr   string
+			ec   string
+			der  bool
+		}
+		for ki, kc := range []kcase{{"rsa1024/BC", rsaKey(1024, 0), "BC", "", false}, {"rsa2048/34CC", rsaKey(2048, 0), "34CC", "", false}, {"ec/P-256", nil, "", "P-256", false}, {"ec/brainpoolP384r1/der", nil, "", "brainpoolP384r1", true}} {
+			for _, n := range []int{0, 1, 7, 9, 16, 32} {
+				if !c.Mine() {
+					continue
+				}
+				ch := make([]byte, n)
+				for i := range ch {
+					ch[i] = byte(0x31 + i)
+				}
+				var dg15b, resp []byte
+				var alg []int
+				if kc.rsa != nil {
+					resp = refchip.AASignRSA(kc.rsa, kc.tr, m1("pt", refchip.AAM1Len(kc.rsa, kc.tr)), ch)
+					dg15b = rsaDG15(kc.rsa)
+				} else {
+					curve := refpki.CurveByName(kc.ec)
+					key := refpki.DeriveECKey(curve, "c07-aa")
+					r, sv := key.SignDigest(perso.ECAAHash(curve).Sum(ch))
+					if kc.der {
+						resp = refpki.ECDSASigDER(r, sv)
+					} else {
+						l := (curve.N.BitLen() + 7) / 8
+						resp = append(r.FillBytes(make([]byte, l)), sv.FillBytes(make([]byte, l))...)
+					}
+					dg15b = ecDG15(key, false)
+					alg = []int{1, 2, 840, 10045, 2, 1}
+				}
+				_ = alg
+				dg15, err := document.NewDG15(dg15b)
+				if err != nil || dg15 == nil {
+					c.HarnessError("challenge-length: DG15: %v", err)
+					continue
+				}
+				var res *document.ActiveAuthResult
+				pv, _ := vc.Guard(func() { res, _ = activeauth.ValidateActiveAuthSignature(dg15, resp, ch) })
+				c.Eval(1)
+				rec := map[string]any{"key": kc.name, "challenge_len": n, "key_index": ki}
+				switch {
+				case pv != nil:
+					c.Outcome(sec3c, "panic")
+					c.Violation(sec3c, "panic/challenge-length", fmt.Sprintf("ValidateActiveAuthSignature panics for a %d-byte challenge: %v", n, pv), rec, nil)
+				case res != nil && res.Success:
+					c.Outcome(sec3c, "accepted")
+					c.Violation(sec3c, "invalid-accepted/signature-over-a-challenge-of-another-length", fmt.Sprintf("%s: a signature over a %d-byte string is accepted as an active-authentication response (the challenge that is sent has exactly 8 bytes)", kc.name, n), rec, nil)
+				default:
+					c.Outcome(sec3c, "rejected")
+				}
+				c.Distinct(fmt.Sprintf("chlen/%s/%d", kc.name, n))
+			}
+		}
+	}
 plumbing:
 	sec4 := "challenge plumbing: reader -> chip -> evidence -> offline verifier"
 	c.SecBound(sec4, "AA over {RSA-2048/34CC, ECDSA brainpoolP256r1, ECDSA P-521 DER} x access {BAC, PACE-GM} x 3 challenges: chip-side challenge, evidence nonce, verifier with c and all 64 one-bit neighbours, 39 call histories on one armed Verifier")
